@@ -70,8 +70,11 @@ def derived_patterns(rng, nodes):
                 out.append(comps[0] + "/*")                      # everything beneath a root-level directory
             elif k < 0.6 and len(comps) > 1:
                 out.append("/" + comps[rng.randrange(len(comps) - 1)])   # root-anchored name that also occurs deeper
-            elif k < 0.75 and len(comps) > 1:
+            elif k < 0.68 and len(comps) > 1:
                 out.append(comps[-2] + "/")                      # directory-only
+            elif k < 0.75:
+                out.append(comps[-1] + "/")                      # directory-only pattern named like a FILE: excludes nothing here
+                                                                 # (seeded change C11-15: patterns normalised through Path, the slash lost)
             elif k < 0.9 and "." in comps[-1].strip("."):
                 out.append("*." + comps[-1].rsplit(".", 1)[1])
             else:
